@@ -50,7 +50,7 @@ Qed.
 Example C03_nonvacuous :
   let f := utf8_encode [252;59;13;10;105;110;102;111;33;40;34;91;114;101;102;58;32;51;93;32;97;34;41;59;105;110;102;111;33;40;34;98;34;41;59] in
   let rc := mkRunCfg (mkConfig false [([108;111;103], [105;110;102;111])]) true in
-  let o := mkOracle None None (fun _ => false) (fun _ => false) (fun _ => FNone) false in
+  let o := mkOracle None None (fun _ => false) (fun _ => false) (fun _ => FNone) LkOk in
   nth_error (w_src (after rc [f] LAbsent o)) 0 =
   Some (utf8_encode [252;59;13;10;105;110;102;111;33;40;34;91;114;101;102;58;32;51;93;32;97;34;41;59;105;110;102;111;33;40;34;91;114;101;102;58;32;52;93;32;98;34;41;59]).
 Proof. vm_compute. reflexivity. Qed.
